@@ -255,18 +255,51 @@ Print Assumptions C08_fed_connection_never_times_out.
     never re-computes an armed deadline when [set_peer_params] changes the timeout. For a
     server (parameters arrive with the first packet, negotiated <= local) and a 1-RTT client the
     premise always holds. A 0-RTT client first negotiates with the REMEMBERED parameters; if the
-    server's real max_idle_timeout is larger, or 0 while the client has none, the timer armed
-    under the old value stays: the model run below reports TimedOut 1 s after a packet although
-    the negotiated idle timeout is "none" — and no later packet would have stopped that timer.
-    Not reproduced on the real code (the simulator cannot change the server's idle timeout
-    between ticket and resumption); reported as a suspected defect. *)
-Example C08_stale_idle_timer_model_witness :
+    server's real max_idle_timeout is larger, the timer armed under the old value stays until
+    the next packet restarts it.
+    When the server's real value is 0 while the client has none, the code AS FOUND kept the
+    timer armed under the old value for good: TimedOut although the negotiated idle timeout is
+    "none", whatever traffic follows (witness below, first found on this model, then replayed on
+    the real code by sim_c08 with CLIENT_IDLE_MS = 0, SERVER_IDLE2_MS = 0, ZERO_RTT: the
+    client reported TimedOut in the middle of a transfer). Repaired in /repo ("fix: stop the idle
+    timer when the negotiated idle timeout becomes disabled"); the model follows the repaired
+    code, [set_peer_params_prefix] is the code as found. *)
+Example C08_stale_idle_timer_refuted_before_fix :
+  let s1 := set_peer_params_prefix (init None None) (Some 1000) in
+  let s2 := handle_packet s1 0 POrdinary 1 1 true in
+  let s3 := set_peer_params_prefix s2 (Some 0) in
+  let s4 := handle_packet s3 500000 POrdinary 1 1 true in
+  let s5 := handle_timeout s4 1000000 in
+  idle_timeout s5 = None /\ snd (poll s5 false) = OLost RTimedOut.
+Proof. vm_compute. split; reflexivity. Qed.
+
+Example C08_stale_idle_timer_repaired :
   let h := [OpPeerParams (Some 1000); OpPacket 0 POrdinary 1 1 true; OpPeerParams (Some 0);
             OpPacket 500000 POrdinary 1 1 true; OpTimeout 1000000; OpPoll false] in
-  stable_run (init None None) h = false /\
   idle_timeout (run_state (init None None) h) = None /\
-  outs_from (init None None) h = [ONone; ONone; ONone; ONone; ONone; OLost RTimedOut].
-Proof. vm_compute. repeat split; reflexivity. Qed.
+  outs_from (init None None) h = [ONone; ONone; ONone; ONone; ONone; ONone].
+Proof. vm_compute. split; reflexivity. Qed.
+
+(** For every history: while no idle timeout is negotiated the Idle timer is not armed, hence
+    (with [C08_timed_out_only_at_deadline]) TimedOut is never reported by a connection whose
+    negotiated idle timeout is "none". *)
+Theorem C08_no_negotiated_timeout_no_idle_timer : forall i k h,
+  let s := run_state (init i k) h in
+  idle_timeout s = None -> t_idle s = None.
+Proof. intros i k h. exact (idle_armed_run h _ (idle_armed_init i k)). Qed.
+Print Assumptions C08_no_negotiated_timeout_no_idle_timer.
+
+Theorem C08_timed_out_needs_negotiated_timeout : forall i k h o, ~ KnownClass i k (h ++ [o]) ->
+  let s := run_state (init i k) h in
+  error (step' s o) = Some RTimedOut -> error s <> Some RTimedOut ->
+  exists idle, idle_timeout s = Some idle.
+Proof.
+  intros i k h o N s E E0.
+  destruct (C08_timed_out_only_at_deadline i k h o N E E0) as (now & d & _ & Td & _).
+  destruct (idle_timeout s) as [x|] eqn:I; [eexists; reflexivity|].
+  pose proof (C08_no_negotiated_timeout_no_idle_timer i k h I) as T. subst s. rewrite T in Td. discriminate Td.
+Qed.
+Print Assumptions C08_timed_out_needs_negotiated_timeout.
 
 (** [negotiate_max_idle_timeout] (tied to the Rust function by the [idle_negotiate] hook):
     commutative, 0 = absent, the minimum of two present values, the present one otherwise. *)
